@@ -73,7 +73,7 @@ class Sandbox:
                     vlib.write_fasta(fb, s[cut:], gz=gz)
                     f.write("%s\t%s\t%s\n" % (nm, fa, fb))
                     continue
-                vlib.write_fasta(fa, s, gz=gz)
+                vlib.write_fasta(fa, s, gz=gz, names=["contig %d" % (j + 1) for j in range(len(s))] if zlib.crc32(nm.encode()) % 2 else None)
                 f.write("%s\t%s\n" % (nm, fa))
         args = ["build", "-o", self.path(out)[:-4], "-k", str(k), "-f", fl, "--threads", str(threads)]
         if not rc:
@@ -145,7 +145,9 @@ class Sandbox:
         if useweed:
             self.nfile += 1
             wf = os.path.join(self.dir, "weed%d.fa" % self.nfile)
-            vlib.write_fasta(wf, weed_recs)
+            # every second weed file: all records share the identifier up to the first blank ("mge 1", "mge 2", ...), as in
+            # files whose headers are an accession followed by a description
+            vlib.write_fasta(wf, weed_recs, names=["mge %d" % (j + 1) for j in range(len(weed_recs))] if self.nfile % 2 else None)
             args.append(wf)
         if out:
             args += ["-o", self.path(out)]
